@@ -37,7 +37,7 @@ ASSUMPTIONS = [
 EXPECTED_PROBES = ["save.checked", "op.savexml", "op.failsave.compile", "op.failsave.dest", "lazy.True", "lazy.None", "lazy.False", "edit.reorder", "edit.subset", "edit.scale", "edit.instantiate"]
 
 TIERS = {
-    "quick": {"budget_s": 170, "determinism_sample": 16, "n": {"hist": 900, "hist_fail": 350, "hist_ensure": 250, "second_save": 460, "clock": 160, "hashseed": 0}, "minimise_s": 60, "max_minimise": 3},
+    "quick": {"budget_s": 170, "determinism_sample": 16, "n": {"hist": 2700, "hist_fail": 1000, "hist_ensure": 700, "second_save": 900, "clock": 400, "hashseed": 0}, "minimise_s": 60, "max_minimise": 3},
     "thorough": {"budget_s": 1500, "determinism_sample": 200, "n": {"hist": 16000, "hist_fail": 5000, "hist_ensure": 4000, "second_save": 1400, "clock": 1500, "hashseed": 0}, "minimise_s": 180, "max_minimise": 6},
 }
 
@@ -94,8 +94,26 @@ def batches(ctx):
 # generation: pure function of (seed, batch, idx)
 
 
+_HAS_FVAR = {}
+
+
+def _has_fvar(k):
+    if k not in _HAS_FVAR:
+        from fontTools.ttLib import TTFont
+
+        g = corpus.gen2(k)
+        _HAS_FVAR[k] = g is not None and "fvar" in TTFont(io.BytesIO(g), lazy=True)
+    return _HAS_FVAR[k]
+
+
 def _pick_font(r):
     keys = corpus.all_gen2_keys()
+    if r.random() < 0.2:
+        # bias a fifth of the runs towards variable fonts (instancing as an EDIT)
+        for _ in range(60):
+            k = r.choice(keys)
+            if _has_fvar(k):
+                return k
     # binaries and TTX-derived fonts with equal weight per file
     for _ in range(40):
         k = r.choice(keys)
